@@ -5,6 +5,7 @@ import Falcon.Model.KeyCodec
 import Falcon.Model.Ntt
 import Falcon.Model.Hash
 import Falcon.Model.Verify
+import Falcon.Model.Sampler
 import Falcon.Spec.Codec
 /- dispatch of one line-protocol op to the model -/
 namespace Falcon.Driver
@@ -48,6 +49,8 @@ def sigReencode (N : Nat) (b : List Nat) : Res (Except KeyCodec.DecErr (List Nat
   match ← KeyCodec.sigFromBytes N b with
   | .error e => pure (.error e)
   | .ok (salt, s) => pure (.ok (KeyCodec.sigToBytes salt s))
+
+def fbits (s : String) : Float := Float.ofBits (parseNat s).toUInt64
 
 def execOp (chk : Bool) (tok : List String) : String :=
   match tok with
@@ -99,6 +102,13 @@ def execOp (chk : Bool) (tok : List String) : String :=
   | ["verify", n, m, sg, pk] =>
       renderRes (fun o => match o with | none => "Undecodable" | some b => toString b)
         (Verify.verifyBytes chk (parseNat n) (parseHex m) (parseHex sg) (parseHex pk))
+  | ["base_sampler", hx] => toString (Sampler.baseSampler (parseHex hx))
+  | ["approx_exp", x, ccs] => renderRes toString (Sampler.approxExp chk (fbits x) (fbits ccs))
+  | ["ber_exp", x, ccs, hx] => renderRes toString (Sampler.berExp chk (fbits x) (fbits ccs) (parseHex hx))
+  | ["sampler_z", mu, sg, sm, hx] =>
+      let stream := parseHex hx
+      renderRes (fun o => match o with | none => "Exhausted" | some (z, used) => s!"{z} {used}")
+        (Sampler.samplerZ chk (fbits mu) (fbits sg) (fbits sm) (stream.length / 17 + 1) stream 0)
   | _ => "bad-op"
 
 end Falcon.Driver
